@@ -67,8 +67,9 @@ type Policy struct {
 	PoolEvict  float64 `json:"pool_evict,omitempty"`
 	PoolCross  float64 `json:"pool_cross,omitempty"`
 	ClockJumpP float64 `json:"clock_jump_p,omitempty"`
-	TimerP     float64 `json:"timer_p,omitempty"` // per hand-off probability that a sleeping library goroutine's timer fires now
-	GCP        float64 `json:"gc_p,omitempty"`    // per hand-off probability of a forced garbage collection (the collector is otherwise off)
+	TimerP     float64 `json:"timer_p,omitempty"`  // per hand-off probability that a sleeping library goroutine's timer fires now
+	GCP        float64 `json:"gc_p,omitempty"`     // per hand-off probability of a forced garbage collection (the collector is otherwise off)
+	GCEvery    int64   `json:"gc_every,omitempty"` // force a collection every so many steps of the run (no cap on their number)
 }
 
 // Trace is the explicit decision record of one run: enough to replay it
@@ -1439,7 +1440,14 @@ func (s *Sim) libGC() {
 }
 
 func (s *Sim) maybeGC() {
-	if s.explicit || s.spec.Policy.GCP <= 0 || s.res.Faults.GC >= 2 {
+	if s.explicit {
+		return
+	}
+	if ev := s.spec.Policy.GCEvery; ev > 0 && s.runSteps() >= (s.res.Faults.GC+1)*ev {
+		s.forceGC()
+		return
+	}
+	if s.spec.Policy.GCP <= 0 || s.res.Faults.GC >= 2 {
 		return
 	}
 	if s.rng.Float() < s.spec.Policy.GCP {
